@@ -207,4 +207,6 @@ ASSIGNMENTS = [
     ["1", "1.0.0.1", "1.1", "2", "10"],
     ["0.9a1", "0.9", "1.0rc1.post1", "1.0", "1.0.post0.dev1"],
     ["3.7", "3.7.5", "3.8", "3.10", "4"],
+    # the release 0 as a bound: 0.dev0 < 0a1 < 0rc1 < 0 lie below it (">=0" is not "any version")
+    ["0", "0.0.1", "0.1", "1", "1!0"],
 ]
